@@ -226,3 +226,10 @@ claim('C46', 'other',
       'configuration arms, identity-sentinel facts for timeout and fetch size, same-name source rule for profile attributes, argument-to-parameter binding of every '
       'message constructor and of ResponseFuture against their signatures, single-definition rule, BoundStatement/Statement inheritance guards',
       'finite-domain folding of guard expressions + call-signature binding + CFG branch facts', _TB, 'DESIGN.md section 5 C46')
+
+claim('C47', 'other',
+      'static analysis: every connected_event.set() site of connection.py and the six reactors is either in a success arm (READY / AUTH_SUCCESS branch facts) or preceded by a '
+      'last_error record on all paths where the event was not yet set; decision facts of Connection.factory; classification of every raise of the startup/auth handlers by '
+      'reply type; exits of the handlers (ready / next message sent / defunct); compression and checksumming enabled only in post-STARTUP arms, in order, checksumming under the '
+      'folded version predicate; value-identity dataflow between the algorithm announced in STARTUP and the stored codec pair; overlap/explicit-choice facts',
+      'CFG dataflow with branch facts and custom state + sibling check over six reactors + who-may-write + finite-domain folding', _TB, 'DESIGN.md section 5 C47')
